@@ -517,6 +517,30 @@ class LibMap:
                 if tag in em.tm.seq_insts or True:
                     em.tm.seq_insts.setdefault(tag, ct[:-1])
                     return "vf_seq_%s_%s_in(%s, %s, %s)" % (tag, name, em.E(args[0]), em.E(args[1]), em.E(args[2]))
+        if name in ("min_element", "max_element") and len(args) == 2:
+            ct = self.mapped(em, args[0])
+            if ct and ct.endswith("*") and is_scalar(ct[:-1]):
+                tag = em.tm.tag(ct[:-1])
+                em.tm.seq_insts.setdefault(tag, ct[:-1])
+                return "vf_seq_%s_%s_in(%s, %s)" % (tag, name, em.E(args[0]), em.E(args[1]))
+        if name == "sort" and len(args) in (2, 3):
+            # std::sort over a modelled range of scalars, natural order or std::greater<> / std::less<>
+            ct = self.mapped(em, args[0])
+            desc = 0
+            if len(args) == 3:
+                cmp_t = qt(args[2]) or ""
+                if re.match(r"(const )?std::greater<", cmp_t):
+                    desc = 1
+                elif not re.match(r"(const )?std::less<", cmp_t):
+                    return None
+            if ct and ct.endswith("*") and is_scalar(ct[:-1]):
+                tag = em.tm.tag(ct[:-1])
+                em.tm.seq_insts.setdefault(tag, ct[:-1])
+                return "vf_seq_%s_sort_in(%s, %s, %d)" % (tag, em.E(args[0]), em.E(args[1]), desc)
+        if name == "make_pair" and len(args) == 2:
+            ct = self.mapped(em, n)
+            if ct and ct.startswith("struct vf_pair_"):
+                return "((%s){%s, %s})" % (ct, em.E(args[0]), em.E(args[1]))
         if name in em.ALGO_BODIES and len(args) == 3:
             r = em.algo_call(n, name, args)
             if r is not None:
